@@ -449,3 +449,214 @@ Proof.
     + unfold same_mode. rewrite Hice. reflexivity.
     + fold pal. apply tnd_same_cells; assumption.
 Qed.
+
+(* ------------------------------------------------------------------ Tundra: what any accepted file loads as *)
+Definition tnd_stored (palL : list rgb) (c : cell) : Prop :=
+  c = invisible_cell \/
+  ((c_ch c < 256)%N /\ tnd_flags_ok (c_attr c) /\
+   (N.to_nat (foreground_color (c_attr c)) < length palL)%nat /\ (N.to_nat (background_color (c_attr c)) < length palL)%nat).
+
+Lemma tnd_stored_mono palL ext c : tnd_stored palL c -> tnd_stored (palL ++ ext) c.
+Proof.
+  intros [H | (H1 & H2 & H3 & H4)]; [left; exact H|right]. rewrite app_length.
+  split; [exact H1|]. split; [exact H2|]. split; lia.
+Qed.
+
+Lemma all_cells_impl (P Q : cell -> Prop) ls : (forall c, P c -> Q c) -> all_cells P ls -> all_cells Q ls.
+Proof. intros H Ha. eapply Forall_impl; [|exact Ha]. intros l Hl. eapply Forall_impl; [|exact Hl]. exact H. Qed.
+
+Lemma tnd_valid_mono palL ext a : tnd_valid palL a -> tnd_valid (palL ++ ext) a.
+Proof. intros (H1 & H2 & H3). unfold tnd_valid. rewrite app_length. split; [lia|]. split; [lia|exact H3]. Qed.
+
+Lemma insert_fg_valid palL a col :
+  tnd_valid palL a ->
+  exists ext, fst (insert_color palL col) = palL ++ ext /\ (length ext <= 1)%nat /\
+              tnd_valid (fst (insert_color palL col)) (with_fg a (snd (insert_color palL col))).
+Proof.
+  intros (H1 & H2 & H3). destruct (insert_color_spec palL col) as (ext & He & Hl & Hn). exists ext.
+  split; [exact He|]. split; [exact Hl|].
+  assert (Hlt : (N.to_nat (snd (insert_color palL col)) < length (fst (insert_color palL col)))%nat) by (apply nth_error_Some; congruence).
+  unfold tnd_valid. cbn [with_fg foreground_color background_color attr font_page]. split; [exact Hlt|].
+  split; [rewrite He, app_length; lia|exact H3].
+Qed.
+
+Lemma insert_bg_valid palL a col :
+  tnd_valid palL a ->
+  exists ext, fst (insert_color palL col) = palL ++ ext /\ (length ext <= 1)%nat /\
+              tnd_valid (fst (insert_color palL col)) (with_bg a (snd (insert_color palL col))).
+Proof.
+  intros (H1 & H2 & H3). destruct (insert_color_spec palL col) as (ext & He & Hl & Hn). exists ext.
+  split; [exact He|]. split; [exact Hl|].
+  assert (Hlt : (N.to_nat (snd (insert_color palL col)) < length (fst (insert_color palL col)))%nat) by (apply nth_error_Some; congruence).
+  unfold tnd_valid. cbn [with_bg foreground_color background_color attr font_page].
+  split; [rewrite He, app_length; lia|]. split; [exact Hlt|exact H3].
+Qed.
+
+Lemma tnd_color_ok l c t : tnd_color l = Ok (c, t) -> exists s, l = s :: (fst (fst c)) :: (snd (fst c)) :: (snd c) :: t.
+Proof.
+  destruct l as [|s [|r [|g [|b t']]]]; cbn [tnd_color]; try discriminate.
+  intro H. injection H as <- <-. exists s. reflexivity.
+Qed.
+
+Lemma tnd_loop_inv w : forall fuel data L palL atL x y L' pf,
+  is_bytes data -> tnd_valid palL atL -> all_cells (tnd_stored palL) (l_lines L) ->
+  tnd_loop fuel w L palL atL x y data = Ok (L', pf) ->
+  l_w L' = l_w L /\ all_cells (tnd_stored pf) (l_lines L') /\ (length pf <= length palL + 2 * length data)%nat.
+Proof.
+  induction fuel as [|fuel IH]; intros data L palL atL x y L' pf Hb Hv Hc H.
+  { destruct data; cbn [tnd_loop] in H; [|discriminate]. injection H as <- <-. repeat split; try assumption. lia. }
+  destruct data as [|cmd rest]; cbn [tnd_loop] in H.
+  { injection H as <- <-. repeat split; try assumption. lia. }
+  unfold is_bytes in Hb. inversion Hb as [|? ? Hcmd Hrest]; subst.
+  destruct (cmd =? TUNDRA_POSITION)%N.
+  - (* a jump: the state is unchanged *)
+    destruct rest as [|a0 [|a1 [|a2 [|a3 rest1]]]]; try discriminate.
+    destruct (be_i32 a0 a1 a2 a3 >=? 65535); [discriminate|].
+    destruct rest1 as [|c0 [|c1 [|c2 [|c3 rest2]]]]; try discriminate.
+    destruct (be_i32 c0 c1 c2 c3 >=? w); [discriminate|].
+    assert (Hr2 : is_bytes rest2).
+    { unfold is_bytes. repeat match goal with Hx : Forall _ (_ :: _) |- _ => inversion Hx; clear Hx; subst end. assumption. }
+    destruct (IH rest2 L palL atL _ _ L' pf Hr2 Hv Hc H) as (H1 & H2 & H3). repeat split; try assumption. cbn [length]. lia.
+  - (* a cell, with or without colour changes *)
+    assert (Htok : exists ch pal1 at1 rest1,
+              (if (1 <? cmd)%N && (cmd <=? 6)%N
+               then match rest with
+                    | [] => Panic 6
+                    | ch :: r0 =>
+                      let* '(pal1, at1, r1) :=
+                         if negb (N.land cmd TUNDRA_COLOR_FOREGROUND =? 0)%N
+                         then let* '(c, r1) := tnd_color r0 in let '(pal1, i) := insert_color palL c in Ok (pal1, with_fg atL i, r1)
+                         else Ok (palL, atL, r0) in
+                      let* '(pal2, at2, r2) :=
+                         if negb (N.land cmd TUNDRA_COLOR_BACKGROUND =? 0)%N
+                         then let* '(c, r2) := tnd_color r1 in let '(pal2, i) := insert_color pal1 c in Ok (pal2, with_bg at1 i, r2)
+                         else Ok (pal1, at1, r1) in
+                      Ok (ch, pal2, at2, r2)
+                    end
+               else Ok (cmd, palL, atL, rest)) = Ok (ch, pal1, at1, rest1) /\
+              (ch < 256)%N /\ is_bytes rest1 /\ (length rest1 <= length rest)%nat /\
+              (exists ext, pal1 = palL ++ ext /\ (length ext <= 2)%nat) /\ tnd_valid pal1 at1).
+    { destruct ((1 <? cmd)%N && (cmd <=? 6)%N).
+      - destruct rest as [|ch r0]; [cbn [bind] in H; discriminate|].
+        inversion Hrest as [|? ? Hch Hr0]; subst.
+        (* foreground *)
+        assert (Hfg : exists pa1 aa1 r1, (if negb (N.land cmd TUNDRA_COLOR_FOREGROUND =? 0)%N
+                         then let* '(c, r1) := tnd_color r0 in let '(pal1, i) := insert_color palL c in Ok (pal1, with_fg atL i, r1)
+                         else Ok (palL, atL, r0)) = Ok (pa1, aa1, r1) /\
+                      is_bytes r1 /\ (length r1 <= length r0)%nat /\ (exists e1, pa1 = palL ++ e1 /\ (length e1 <= 1)%nat) /\ tnd_valid pa1 aa1).
+        { destruct (negb (N.land cmd TUNDRA_COLOR_FOREGROUND =? 0)%N).
+          - destruct (tnd_color r0) as [[c r1]| |] eqn:Ec; cbn [bind] in H |- *; try discriminate.
+            destruct (tnd_color_ok _ _ _ Ec) as (s0 & ->).
+            destruct (insert_fg_valid palL atL c Hv) as (e1 & He1 & Hl1 & Hv1).
+            destruct (insert_color palL c) as [p1 i1]. cbn [fst snd] in *.
+            exists p1, (with_fg atL i1), r1. split; [reflexivity|].
+            split; [unfold is_bytes in *; repeat match goal with Hx : Forall _ (_ :: _) |- _ => inversion Hx; clear Hx; subst end; assumption|].
+            split; [cbn [length]; lia|]. split; [exists e1; auto|exact Hv1].
+          - exists palL, atL, r0. split; [reflexivity|]. split; [exact Hr0|]. split; [lia|].
+            split; [exists []; rewrite app_nil_r; split; [reflexivity|cbn; lia]|exact Hv]. }
+        destruct Hfg as (pa1 & aa1 & r1 & Hfgeq & Hr1 & Hl1 & (e1 & He1 & Hle1) & Hv1).
+        rewrite Hfgeq in H |- *. cbn [bind] in H |- *.
+        destruct (negb (N.land cmd TUNDRA_COLOR_BACKGROUND =? 0)%N).
+        + destruct (tnd_color r1) as [[c r2]| |] eqn:Ec; cbn [bind] in H |- *; try discriminate.
+          destruct (tnd_color_ok _ _ _ Ec) as (s0 & ->).
+          destruct (insert_bg_valid pa1 aa1 c Hv1) as (e2 & He2 & Hl2 & Hv2).
+          destruct (insert_color pa1 c) as [p2 i2]. cbn [fst snd] in *.
+          exists ch, p2, (with_bg aa1 i2), r2. split; [reflexivity|]. split; [exact Hch|].
+          split; [unfold is_bytes in *; repeat match goal with Hx : Forall _ (_ :: _) |- _ => inversion Hx; clear Hx; subst end; assumption|].
+          split; [cbn [length] in *; lia|]. split; [|exact Hv2].
+          exists (e1 ++ e2). rewrite He2, He1, <- app_assoc. split; [reflexivity|rewrite app_length; lia].
+        + exists ch, pa1, aa1, r1. split; [reflexivity|]. split; [exact Hch|]. split; [exact Hr1|].
+          split; [cbn [length]; lia|]. split; [exists e1; split; [exact He1|lia]|exact Hv1].
+      - exists cmd, palL, atL, rest. split; [reflexivity|]. split; [exact Hcmd|]. split; [exact Hrest|]. split; [lia|].
+        split; [exists []; rewrite app_nil_r; split; [reflexivity|cbn; lia]|exact Hv]. }
+    destruct Htok as (ch & pal1 & at1 & rest1 & Heq & Hch & Hr1 & Hl1 & (ext & He & Hle) & Hv1).
+    rewrite Heq in H. cbn [bind] in H.
+    assert (Hc1 : all_cells (tnd_stored pal1) (l_lines (put true L x y (mkCell ch at1)))).
+    { apply put_all_cells.
+      - left. reflexivity.
+      - right. cbn [c_ch c_attr]. destruct Hv1 as (V1 & V2 & V3). auto.
+      - rewrite He. eapply all_cells_impl; [|exact Hc]. intros c0 Hc0. apply tnd_stored_mono, Hc0. }
+    destruct (x + 1 >=? w).
+    + destruct (IH rest1 _ pal1 at1 _ _ L' pf Hr1 Hv1 Hc1 H) as (H1 & H2 & H3).
+      rewrite put_width in H1. repeat split; try assumption. rewrite He, app_length in H3. cbn [length]. lia.
+    + destruct (IH rest1 _ pal1 at1 _ _ L' pf Hr1 Hv1 Hc1 H) as (H1 & H2 & H3).
+      rewrite put_width in H1. repeat split; try assumption. rewrite He, app_length in H3. cbn [length]. lia.
+Qed.
+
+Definition tnd_sauce_like (s : option sauce) : Prop :=
+  match s with None => True | Some s => 0 <= s_w s end.
+
+Lemma default_cell_tnd : cell_tnd (cell_with_page default_cell 0).
+Proof. unfold cell_tnd. vm_compute. repeat split; discriminate. Qed.
+
+Lemma tnd_stored_seen pf c : (N.of_nat (length pf) <= 2147483648)%N -> tnd_stored pf c -> cell_tnd (seen c).
+Proof.
+  intros Hlen [-> | (Hch & Hfl & Hfg & Hbg)].
+  - unfold seen. change (is_visible invisible_cell) with false. apply default_cell_tnd.
+  - destruct c as [ch a]. cbn [c_ch c_attr] in *. destruct (flags_ok_visible ch a Hfl) as (Hv & Hb & Hbl).
+    unfold seen. rewrite Hv. unfold cell_tnd. cbn [c_ch c_attr].
+    split; [exact Hch|]. split; [exact Hv|]. split; [apply Hfl|]. split; [exact Hb|]. split; [exact Hbl|]. split; lia.
+Qed.
+
+Lemma tnd_load_representable : forall data s b,
+  is_bytes data -> tnd_sauce_like s -> load_tnd data s = Ok b ->
+  0 <= b_h b -> b_w b * b_h b < 1073741824 -> (N.of_nat (length data) < 536870912)%N ->
+  representable_tnd (pic_of b).
+Proof.
+  intros data s b Hbytes Hs Hload Hh0 Hsize Hdlen. unfold load_tnd in Hload.
+  set (b0 := set_sauce (buffer_new 80 25) s) in *.
+  assert (Hb0 : exists w h0, 1 <= w <= 1000 /\ b_w b0 = w /\ b_layer b0 = mkLayer w h0 (l_lines (layer_new 80 25))).
+  { unfold b0. destruct s as [s|]; [|exists 80, 25; repeat split; lia].
+    cbn in Hs. unfold set_sauce.
+    destruct (Z.eqb_spec (s_w s) 0) as [E|E]; cbn [orb].
+    - exists 80, (s_h s). destruct (s_ice s); repeat split; lia.
+    - destruct (Z.gtb_spec (s_w s) 1000).
+      + exists 80, (s_h s). destruct (s_ice s); repeat split; lia.
+      + exists (s_w s), (s_h s). destruct (s_ice s); repeat split; lia. }
+  destruct Hb0 as (w & h0 & Hw & Hb0w & Hb0l).
+  destruct (Nat.ltb_spec (length data) (1 + length TUNDRA_HEADER)) as [|Hlen]; [discriminate|].
+  destruct data as [|ver rest]; [discriminate|].
+  match type of Hload with (if negb ?c then _ else _) = _ => destruct c end; cbn [negb] in Hload; [|discriminate].
+  set (b1 := set_modes (set_ice (set_pal b0 [(0, 0, 0)%N]) Ice) 0 (b_fmode b0)) in *.
+  change (b_w b1) with (b_w b0) in Hload. change (b_layer b1) with (b_layer b0) in Hload.
+  change (b_pal b1) with [(0, 0, 0)%N] in Hload. rewrite Hb0w, Hb0l in Hload.
+  set (body := skipn (length TUNDRA_HEADER) rest) in *.
+  destruct (tnd_loop (length body) w (mkLayer w h0 (l_lines (layer_new 80 25))) [(0, 0, 0)%N] (from_u8 0 Ice) 0 0 body)
+    as [[L pf]| |] eqn:Eloop; cbn [bind] in Hload; try discriminate.
+  injection Hload as <-.
+  assert (Hbody : is_bytes body).
+  { unfold body. apply is_bytes_skipn. unfold is_bytes in Hbytes. inversion Hbytes; assumption. }
+  assert (Hv0 : tnd_valid [(0, 0, 0)%N] (from_u8 0 Ice)) by (unfold tnd_valid, tnd_flags_ok; cbn; repeat split; lia).
+  assert (Hc0 : all_cells (tnd_stored [(0, 0, 0)%N]) (l_lines (mkLayer w h0 (l_lines (layer_new 80 25)))))
+    by (cbn [l_lines]; apply layer_new_all_cells; left; reflexivity).
+  destruct (tnd_loop_inv w (length body) body _ _ _ 0 0 L pf Hbody Hv0 Hc0 Eloop) as (HLw & Hcells & Hpl).
+  cbn [l_w length] in HLw, Hpl.
+  assert (Hbl : (length body <= length rest)%nat) by (unfold body; rewrite skipn_length; lia).
+  cbn [length] in Hdlen.
+  cbn [b_w b_h set_height set_width set_pal set_layer] in Hh0, Hsize.
+  unfold representable_tnd.
+  cbn [pic_of p_w p_h p_ice p_pal b_w b_h b_ice b_pal set_height set_width set_pal set_layer].
+  split; [|split; [|split; [|split]]].
+  - unfold rect. apply (pic_of_rect (set_height (set_width (set_pal (set_layer b1 L) pf) (l_w L)) (l_h L)));
+      cbn [b_w b_h set_height set_width set_pal set_layer]; lia.
+  - lia.
+  - exact Hsize.
+  - reflexivity.
+  - unfold all_pic_cells.
+    apply (pic_of_all_cells (tnd_stored pf) cell_tnd); cbn [b_w b_h b_layer set_height set_width set_pal set_layer].
+    + lia.
+    + lia.
+    + left. reflexivity.
+    + exact Hcells.
+    + intros c Hc. apply (tnd_stored_seen pf); [lia|exact Hc].
+Qed.
+
+Lemma tnd_resave_proof : forall data s b,
+  is_bytes data -> tnd_sauce_like s -> load_tnd data s = Ok b ->
+  0 <= b_h b -> b_w b * b_h b < 1073741824 -> (N.of_nat (length data) < 536870912)%N ->
+  exists data' b', save_tnd (pic_of b) = Ok data' /\ load_tnd data' (Some (tnd_sauce (pic_of b))) = Ok b' /\
+                   same_picture_rgb (pic_of b) (pic_of b').
+Proof.
+  intros data s b Hd Hs Hl H0 Hsz Hlen. apply tnd_roundtrip_proof.
+  exact (tnd_load_representable data s b Hd Hs Hl H0 Hsz Hlen).
+Qed.
